@@ -192,6 +192,7 @@ func runWorkloads(r *kit.Run, tag string, pal func() *workloads.Palette, rounds 
 		}
 		workloads.Extra(r, r.Rand(fmt.Sprintf("%s/extra/%d", tag, round)), pal())
 		workloads.RippleDest(r, r.Rand(fmt.Sprintf("%s/ripple-dest/%d", tag, round)), pal())
+		workloads.Bor(r, r.Rand(fmt.Sprintf("%s/bor/%d", tag, round)), pal())
 	}
 }
 
@@ -306,6 +307,7 @@ func TestC17(t *testing.T) {
 	r.Require("key_shapes", 20)
 	r.Require("ledger_blocks_checked", 5)
 	r.Require("accessor_parameter_changes_key", 100)
+	r.Require("bor_cross_chain_span_probe", 1)
 	ks := map[string][]string{}
 	for c, set := range m.kinds {
 		for k := range set {
